@@ -4,3 +4,4 @@ Definition c04_tx_deser := tx_deser.
 Definition c04_tx_ser := tx_ser.
 Definition c04_tx_ser_nowit := tx_ser_nowit.
 Definition c04_txid := txid.
+Definition c04_txin_default := fun o s => txin o s default_sequence.   (* txin(o, s) with the default argument *)
